@@ -393,22 +393,26 @@ private:
 
   void skipWhitespaceOutsideText()
   {
-    // Only skip if next thing is markup or beginning; do not consume text spaces.
-    while (!eof())
+    // Only skip if the next thing is markup or the end of input; do not consume
+    // the leading white space of a text node (it is part of the text).
+    std::size_t p = _cur;
+    while (p < _input.size())
     {
-      char ch = peek();
+      char ch = _input[p];
       if (ch == ' ' || ch == '\t' || ch == '\r' || ch == '\n')
       {
-        advance();
+        ++p;
         continue;
       }
-      if (ch == '<')
-      {
-        // stop; next() will handle
-        return;
-      }
-      // Non-space text ahead; let readText handle
-      return;
+      break;
+    }
+    if (p < _input.size() && _input[p] != '<')
+    {
+      return; // non-space text ahead; readText takes it including the white space
+    }
+    while (_cur < p)
+    {
+      advance();
     }
   }
 
